@@ -770,4 +770,65 @@ theorem run_WInv {w : World} (hw : WInv w) (ops : List Op) : WInv (run w ops) :=
 
 theorem WInv_init : WInv {} := ⟨rfl, fun _ h => by cases h⟩
 
+
+/-! ### several handles -/
+
+def WsInv (w : Worlds) : Prop := w.a = {} ∧ ∀ p ∈ w.hs, Inv (p.2, ({} : Acct))
+
+theorem get_mem {w : Worlds} {i : Nat} {h : Handle} (e : w.get i = some h) : ∃ p ∈ w.hs, p.2 = h := by
+  unfold Worlds.get at e
+  cases hf : w.hs.find? (fun p => p.1 == i) with
+  | none => simp [hf] at e
+  | some p =>
+    simp [hf] at e
+    exact ⟨p, List.mem_of_find?_eq_some hf, e⟩
+
+theorem stepAt_WsInv {w : Worlds} (hw : WsInv w) (i : Nat) (op : Op) : WsInv (stepAt w i op).1 := by
+  obtain ⟨ha, hh⟩ := hw
+  have h1 : WInv ({ h := w.get i, a := w.a } : World) := by
+    refine ⟨ha, ?_⟩
+    intro h e
+    obtain ⟨p, hp, e2⟩ := get_mem e
+    subst e2
+    exact hh p hp
+  have h2 := step_WInv h1 op
+  unfold stepAt Worlds.set
+  refine ⟨h2.1, ?_⟩
+  intro p hp
+  simp only at hp
+  cases hr : (step { h := w.get i, a := w.a } op).1.h with
+  | none =>
+    rw [hr] at hp
+    exact hh p ((List.mem_filter.mp hp).1)
+  | some h' =>
+    rw [hr] at hp
+    rcases List.mem_cons.mp hp with e | e
+    · subst e; exact h2.2 h' hr
+    · exact hh p ((List.mem_filter.mp e).1)
+
+theorem runAt_WsInv {w : Worlds} (hw : WsInv w) (ops : List (Nat × Op)) : WsInv (runAt w ops) := by
+  induction ops generalizing w with
+  | nil => exact hw
+  | cons p rest ih => exact ih (stepAt_WsInv hw p.1 p.2)
+
+theorem WsInv_init : WsInv {} := ⟨rfl, fun _ h => by cases h⟩
+
+theorem get_set_other (w : Worlds) (i j : Nat) (h : Option Handle) (a : Acct) (hne : j ≠ i) : (w.set i h a).get j = w.get j := by
+  unfold Worlds.get Worlds.set
+  have hf : ∀ l : List (Nat × Handle), (l.filter (fun p => p.1 != i)).find? (fun p => p.1 == j) = l.find? (fun p => p.1 == j) := by
+    intro l
+    induction l with
+    | nil => rfl
+    | cons q rest ih =>
+      by_cases hq : q.1 = i
+      · have hij : (i == j) = false := by simp; exact fun e => hne e.symm
+        simp [List.filter_cons, hq, List.find?_cons, hij, ih]
+      · simp [List.filter_cons, hq, List.find?_cons, ih]
+  cases h with
+  | none => simp only; rw [hf]
+  | some h' =>
+    simp only
+    have : ((i, h').1 == j) = false := by simp; exact fun e => hne e.symm
+    rw [List.find?_cons, this, hf]
+
 end Sf.Ledger
